@@ -254,7 +254,7 @@ async fn server_task(is_ws: bool, listener: tokio::net::TcpListener, mut cmds: t
                     if r.is_err() {
                         break;
                     }
-                    if i != last {
+                    if i != last && last <= 12 {
                         tokio::time::sleep(Duration::from_millis(3)).await;
                     }
                 }
@@ -524,6 +524,35 @@ fn cut_points(lens: &[usize], seed: u64, max_cuts: usize) -> Vec<usize> {
         base += len;
     }
     cuts
+}
+const ONE_BYTE: u64 = 1 << 40;
+/// One WebSocket frame (server to client: unmasked). `first` = 0x82 whole binary message, 0x02 first
+/// fragment, 0x00 middle fragment, 0x80 last fragment.
+fn ws_frame(first: u8, payload: &[u8]) -> Vec<u8> {
+    let mut v = vec![first];
+    match payload.len() {
+        n if n < 126 => v.push(n as u8),
+        n if n < 65536 => { v.push(126); v.extend_from_slice(&(n as u16).to_be_bytes()); }
+        n => { v.push(127); v.extend_from_slice(&(n as u64).to_be_bytes()); }
+    }
+    v.extend_from_slice(payload);
+    v
+}
+/// A REPE message as a fragmented WebSocket message (2–3 fragments, cut points from the PRNG).
+fn ws_fragmented(msg: &[u8], r: &mut Rng) -> Vec<u8> {
+    if msg.len() < 3 {
+        return ws_frame(0x82, msg);
+    }
+    let a = 1 + r.below(msg.len() as u64 - 2) as usize;
+    let mut out = ws_frame(0x02, &msg[..a]);
+    if r.chance(1, 2) && msg.len() - a >= 2 {
+        let b = a + 1 + r.below((msg.len() - a - 1) as u64) as usize;
+        out.extend(ws_frame(0x00, &msg[a..b]));
+        out.extend(ws_frame(0x80, &msg[b..]));
+    } else {
+        out.extend(ws_frame(0x80, &msg[a..]));
+    }
+    out
 }
 /// An error response (ec != 0, UTF-8 message body).
 fn error_response(id: u64, ec: u32) -> Vec<u8> {
@@ -795,12 +824,28 @@ fn run_mux_case(h: &H, out: &mut Out, idx: &str, case: &MuxCase) {
         wire.push(response(unknown_base + 999_999, true, -1, -1)); // end marker for the subscriber
     }
     // one write per frame on even cases, one coalesced write on odd ones (TCP only)
-    if case.kind != 2 && case.frag != 0 {
+    if case.kind == 2 && case.frag != 0 {
+        // every message as 2–3 WebSocket fragments, written beneath the WebSocket layer, the byte stream cut again
+        let mut r = Rng::new(case.frag);
+        let frames: Vec<Vec<u8>> = wire.iter().map(|m| ws_fragmented(m, &mut r)).collect();
+        let lens: Vec<usize> = frames.iter().map(|f| f.len()).collect();
+        let all = frames.concat();
+        let mut pieces = Vec::new();
+        let mut last = 0usize;
+        for c in cut_points(&lens, case.frag ^ 0x5555, 8) {
+            pieces.push(all[last..c].to_vec());
+            last = c;
+        }
+        pieces.push(all[last..].to_vec());
+        out.count(&format!("mux.ws_fragments.{}", pieces.len().min(6)));
+        s.send(Cmd::SendPieces(pieces));
+    } else if case.kind != 2 && case.frag != 0 {
         let lens: Vec<usize> = wire.iter().map(|f| f.len()).collect();
         let all = wire.concat();
         let mut pieces = Vec::new();
         let mut last = 0usize;
-        for c in cut_points(&lens, case.frag, 10) {
+        let cuts: Vec<usize> = if case.frag & ONE_BYTE != 0 && all.len() <= 4096 { (1..all.len()).collect() } else { cut_points(&lens, case.frag, 10) };
+        for c in cuts {
             pieces.push(all[last..c].to_vec());
             last = c;
         }
@@ -1037,6 +1082,27 @@ fn run_seq_case(h: &H, out: &mut Out, idx: &str, kind: usize, t: usize, k: usize
             });
         }
     }
+    let stop = std::sync::Arc::new(std::sync::atomic::AtomicBool::new(false));
+    {
+        let stop = stop.clone();
+        let cl = s.cl.clone();
+        let rt = h.rt.handle().clone();
+        std::thread::spawn(move || {
+            let _g = rt.enter(); // the WebSocket client's Drop looks for a runtime
+            let mut n = 0u64;
+            while !stop.load(std::sync::atomic::Ordering::Relaxed) && n < 2_000_000 {
+                let c2 = cl.clone();
+                if let Cl::W(w) = &c2 {
+                    let _ = w.limits();
+                }
+                drop(c2);
+                n += 1;
+                if n % 64 == 0 {
+                    std::thread::yield_now();
+                }
+            }
+        });
+    }
     let (dtx, drx) = smpsc::channel::<(usize, usize, String)>();
     for w in 0..t {
         let dtx = dtx.clone();
@@ -1150,6 +1216,7 @@ fn run_seq_case(h: &H, out: &mut Out, idx: &str, kind: usize, t: usize, k: usize
             Err(_) => break,
         }
     }
+    stop.store(true, std::sync::atomic::Ordering::Relaxed);
     out.count(&format!("mux.{}.seq", kname));
     out.case(&op, &format!("{} ok {}", idx, okc), true);
     s.send(Cmd::Close);
@@ -1542,7 +1609,7 @@ fn run_life_case(h: &H, out: &mut Out, idx: &str, kind: usize, seed: u64) {
         }};
     }
     check_served!("connect");
-    let mut steps: Vec<&str> = vec!["zero_timeout", "short_timeout", "error_response", "ser_err", "ser_panic", "de_err", "notifies", "batch", "cancel", "forward", "resubscribe", "oversize"];
+    let mut steps: Vec<&str> = vec!["big_response", "zero_timeout", "short_timeout", "error_response", "ser_err", "ser_panic", "de_err", "notifies", "batch", "cancel", "forward", "resubscribe", "oversize"];
     r.shuffle(&mut steps);
     for step in steps {
         match step {
@@ -1562,6 +1629,35 @@ fn run_life_case(h: &H, out: &mut Out, idx: &str, kind: usize, seed: u64) {
                         s.send(Cmd::Send(vec![response_v(f.h.id, false, c as i64, c as i64, variant_of(&f))]));
                     } else {
                         s.req_stash.push(f);
+                    }
+                }
+            }
+            "big_response" => {
+                // awaited answers whose frame is 8191 / 8192 / 8193 bytes and 70 kB (the read buffers are 8 KiB)
+                for total in [8191usize, 8192, 8193, 70_000] {
+                    let c = fresh(&mut next_c);
+                    s.call_v(h, c, 0, None);
+                    let deadline = Instant::now() + call_watchdog();
+                    let mut got = None;
+                    while Instant::now() < deadline && got.is_none() {
+                        match s.ev.recv_timeout(Duration::from_millis(50)) {
+                            Ok(Event::Req(f)) if caller_of(&f) == Some(c) => {
+                                let base = serde_json::to_vec(&json!({"tag": c, "c": c, "pad": ""})).unwrap().len();
+                                let pad = "p".repeat(total - 48 - 2 - base);
+                                let body = serde_json::to_vec(&json!({"tag": c, "c": c, "pad": pad})).unwrap();
+                                let frame = RawFrame::request(f.h.id, false, 1, b"/t", 2, &body).to_vec();
+                                debug_assert_eq!(frame.len(), total);
+                                s.send(Cmd::Send(vec![frame]));
+                            }
+                            Ok(Event::Req(f)) => s.req_stash.push(f),
+                            Ok(Event::Res(x, r)) if x == c => got = Some(r),
+                            Ok(Event::Res(x, r)) => s.stash.push((x, r)),
+                            _ => {}
+                        }
+                    }
+                    if own(&got, c as i64) != "own" {
+                        out.oracle_fail(&format!("mux.{}.life.big_response", kname), &format!("a call answered with a {}-byte frame returned {}", total, own(&got, c as i64)), &ops);
+                        verdict = "bad".into();
                     }
                 }
             }
@@ -1732,6 +1828,46 @@ fn run_life_case(h: &H, out: &mut Out, idx: &str, kind: usize, seed: u64) {
     s.send(Cmd::Close);
 }
 
+/// Drop paths: calls in flight are abandoned (tasks aborted) and every handle of the client is dropped while
+/// the peer has answered nothing. Nothing is asserted about the peer's view (the property does not speak
+/// about it); the run must simply get through, and a fresh client must work afterwards.
+fn run_drops_case(h: &H, out: &mut Out, idx: &str, kind: usize) {
+    let kname = KINDS[kind];
+    let op = format!("drops {} {}", idx, kind);
+    out.begin(&op);
+    if kind != 0 {
+        if let Ok(mut s) = h.open(kind) {
+            for c in 0..3 {
+                s.call_v(h, c, c * 5, None);
+            }
+            let seen = s.read(3).is_ok();
+            for c in 0..3 {
+                let _ = s.abort(h, c);
+            }
+            let Session { cl, cmd, ev, .. } = s;
+            drop(cl);
+            let _ = cmd.send(Cmd::Read(1));
+            let closed = matches!(ev.recv_timeout(Duration::from_millis(700)), Ok(Event::SrvErr(_)));
+            out.count(&format!("mux.{}.drops.requests_seen.{}", kname, seen));
+            out.count(&format!("mux.{}.drops.peer_saw_close.{}", kname, closed));
+            let _ = cmd.send(Cmd::Close);
+        }
+    }
+    // a fresh client afterwards
+    let mut verdict = "ok";
+    if let Ok(mut s) = h.open(kind) {
+        s.send(Cmd::AutoRead);
+        let _ = s.srv_done();
+        s.call_v(h, 0, 3, None);
+        if own(&serve_until(&mut s, 0, 0, call_watchdog()), 0) != "own" {
+            out.oracle_fail(&format!("mux.{}.fresh_client_after_drops", kname), "a fresh client after dropped ones was not served", &[op.clone()]);
+            verdict = "bad";
+        }
+        s.send(Cmd::Close);
+    }
+    out.case(&op, &format!("{} {}", idx, verdict), true);
+}
+
 fn permutations(n: usize) -> Vec<Vec<usize>> {
     fn go(cur: &mut Vec<usize>, used: &mut Vec<bool>, n: usize, out: &mut Vec<Vec<usize>>) {
         if cur.len() == n {
@@ -1801,7 +1937,7 @@ fn gen_mux(args: &Args, r: &mut Rng) -> (Vec<MuxCase>, Vec<BatchCase>) {
                     script.insert(pos, t);
                 }
                 let vars = (0..n).map(|_| r.below(NVARIANTS as u64) as usize).collect();
-                let frag = if r.chance(1, 3) { 1 + r.below(1 << 30) } else { 0 };
+                let frag = match r.below(6) { 0 | 1 => 1 + r.below(1 << 30), 2 if n <= 3 => ONE_BYTE | (1 + r.below(1 << 30)), _ => 0 };
                 cases.push(MuxCase { kind, n, script, vars, frag });
             }
         }
@@ -1809,6 +1945,10 @@ fn gen_mux(args: &Args, r: &mut Rng) -> (Vec<MuxCase>, Vec<BatchCase>) {
         for p in permutations(2) {
             for t in ["u0", "u1", "u2", "u3", "e0", "x0", "x1", "n0", "n1", "r0", "r1", "v0", "v1", "b0", "b1", "b2", "b3", "b4", "b5", "b6", "b7", "b8", "b9"] {
                 for pos in 0..=2 {
+                    // the ten large-body sizes take one position each per order (quick); all three in thorough
+                    if t.starts_with('b') && !args.thorough() && pos != (t[1..].parse::<usize>().unwrap() + p[0]) % 3 {
+                        continue;
+                    }
                     let mut script: Vec<String> = p.iter().map(|c| format!("r{c}")).collect();
                     script.insert(pos, t.to_string());
                     let vars = vec![r.below(NVARIANTS as u64) as usize, r.below(NVARIANTS as u64) as usize];
@@ -3530,6 +3670,10 @@ fn main() {
     let rt = tokio::runtime::Builder::new_multi_thread().worker_threads(8).enable_all().build().unwrap();
     let srv_rt = tokio::runtime::Builder::new_multi_thread().worker_threads(2).enable_all().build().unwrap();
     let h = H { rt, srv_rt };
+    let h1 = H {
+        rt: tokio::runtime::Builder::new_multi_thread().worker_threads(1).max_blocking_threads(1).enable_all().build().unwrap(),
+        srv_rt: tokio::runtime::Builder::new_multi_thread().worker_threads(1).enable_all().build().unwrap(),
+    };
     let mut rng = Rng::new(args.seed);
     if let Some(ops) = args.replay_ops() {
         for (k, l) in ops.iter().enumerate() {
@@ -3544,6 +3688,7 @@ fn main() {
                 }
                 Some("seq") if w.len() >= 5 => run_seq_case(&h, &mut out, &idx, w[2].parse().unwrap(), w[3].parse().unwrap(), w[4].parse().unwrap(), 0),
                 Some("seqbig") if w.len() >= 6 => run_seq_case(&h, &mut out, &idx, w[2].parse().unwrap(), w[3].parse().unwrap(), w[4].parse().unwrap(), w[5].parse().unwrap()),
+                Some("drops") if w.len() >= 3 => run_drops_case(&h, &mut out, &idx, w[2].parse().unwrap()),
                 Some("life") if w.len() >= 4 => run_life_case(&h, &mut out, &idx, w[2].parse().unwrap(), w[3].parse().unwrap()),
                 Some("fwd") if w.len() >= 4 => run_fwd_case(&h, &mut out, &idx, w[3]),
                 Some("batch") if w.len() >= 6 => {
@@ -3643,6 +3788,17 @@ fn main() {
                 run_lates_case_in(&h, &mut out, "mux", &format!("k{q}"), kind, k, shape);
                 q += 1;
             }
+        }
+        for kind in 0..3 {
+            run_drops_case(&h, &mut out, &format!("dr{q}"), kind);
+            q += 1;
+        }
+        // (l) the async clients on a runtime with ONE worker thread: callers, the reader task and their timers share it
+        for kind in 1..3 {
+            run_seq_case(&h1, &mut out, &format!("q{q}"), kind, 4, if args.thorough() { 600 } else { 120 }, 0);
+            q += 1;
+            run_lates_case_in(&h1, &mut out, "mux", &format!("k{q}"), kind, 33, "late");
+            q += 1;
         }
         for mode in ["ids", "dup", "reuse"] {
             run_fwd_case(&h, &mut out, &format!("f{q}"), mode);
